@@ -5,7 +5,7 @@
      a2 = prime-field SQRT_PRECOMP      [0] none | [1; (p+1)/4] Case3Mod4 | [2; s; z; tm1d2] TonelliShanks
      a3 = Fp3 data                      [s; tm1d2; z0; z1; z2; C1_0; C1_1; C1_2; C2_0; C2_1; C2_2]  (else empty)
      a4.. operands (coordinate lists)
-   Status: [0] ok, [2] panic, [1;7] model fuel exhausted, [9] unsupported. *)
+   Status: [0] ok, [2] panic, [1;7] model fuel exhausted, [1;8] legendre <> Euler criterion, [9] unsupported. *)
 From V Require Import Base.Field C11.SqrtModel.
 
 Definition ok (r : list (list Z)) : list (list Z) := [0] :: r.
@@ -86,17 +86,62 @@ Definition out_pair {T} (F : Fops T) (r : sqrt_res (T * T)) : list (list Z) :=
   | SqFuel => err 7
   end.
 
-Definition run_ops {T} (S : SF T) (op : Z) (a : list (list Z)) : list (list Z) :=
+(* `legendre` on an extension: besides mirroring the code (legendre of the norm) the model re-computes
+   Euler's criterion x^((q-1)/2) in the extension and reports [1;8] if the two ever differ, so the
+   correspondence run also tests `legendre = Euler` on every generated extension element *)
+Definition euler_leg {T} (F : Fops T) (q : Z) (x : T) : Z :=
+  legendre_pow (f0 F) (f1 F) (fmul F) (feqb F) ((q - 1) / 2) x.
+
+Definition run_ops {T} (S : SF T) (q : Z) (op : Z) (a : list (list Z)) : list (list Z) :=
   let F := sf_ops S in
   let x4 := fof F (arg 4 a) in
   let x5 := fof F (arg 5 a) in
   let x6 := fof F (arg 6 a) in
   match op with
   | 1 | 3 => out_sqrt F (sf_sqrt S x4)
-  | 2 => match sf_leg S x4 with Some l => ok [[l]] | None => panic end
+  | 2 => match sf_leg S x4 with
+         | Some l => if l =? euler_leg F q x4 then ok [[l]] else err 8
+         | None => panic
+         end
   | 4 => out_pair F (ys_from_x (f0 F) (fadd F) (fmul F) (fneg F) (feqb F) (sf_ltb S) (sf_sqrt S) x4 x5 x6)
   | 5 => out_pair F (xs_from_y (f0 F) (f1 F) (fsub F) (fmul F) (fneg F) (finv F) (feqb F) (sf_ltb S) (sf_sqrt S) x4 x5 x6)
   | _ => unsupported
+  end.
+
+(* op 7 `precomp_ok`: do the constants the Rust configuration holds satisfy the premises of the
+   C11 theorems?  (p = 3 mod 4 and e = (p+1)/4;  q - 1 = 2^s (2 tm + 1) and z^(2^(s-1)) = -1;
+   the tower non-residue is a quadratic non-residue;  Fp3: Frobenius coefficients nr^((p^i-1)/3)
+   and their squares, nr not a cube.)  The harness answers the constant 1 for every compiled
+   configuration, so a wrong constant in /repo is a disagreement. *)
+Definition pc_ok_fp (p : Z) (l : list Z) : bool :=
+  let F := ZpOps p in
+  match l with
+  | [1; e] => (p mod 4 =? 3) && (4 * e =? p + 1)
+  | [2; s; z; tm] => (0 <? s) && (0 <=? tm) && (p - 1 =? 2 ^ s * (2 * tm + 1)) &&
+                     (0 <=? z) && (z <? p) && (sqn (fmul F) (Z.to_nat (s - 1)) z =? p - 1)
+  | _ => false
+  end.
+Definition pc_ok_fp3 (p nr : Z) (d : list Z) : bool :=
+  let B := ZpOps p in
+  let C := CubicOps B nr in
+  let s := nth 0 d 0 in
+  let tm := nth 1 d 0 in
+  let z := fof C (skipn 2 d) in
+  let c1 := firstn 3 (skipn 5 d) in
+  let c2 := firstn 3 (skipn 8 d) in
+  let e1 := map (fun i => pow_mod nr ((p ^ i - 1) / 3) p) [0; 1; 2] in
+  (0 <? s) && (0 <=? tm) && (p * p * p - 1 =? 2 ^ s * (2 * tm + 1)) &&
+  feqb C (sqn (fmul C) (Z.to_nat (s - 1)) z) (fneg C (f1 C)) &&
+  (p mod 3 =? 1) && negb (nth 1 e1 1 =? 1) &&
+  forallb (fun xy => fst xy =? snd xy) (combine c1 e1) &&
+  forallb (fun xy => fst xy =? snd xy) (combine c2 (map (fun x => (x * x) mod p) e1)) &&
+  (length c1 =? 3)%nat && (length c2 =? 3)%nat.
+Definition precomp_ok (deg p nr : Z) (a : list (list Z)) : bool :=
+  match deg with
+  | 1 => pc_ok_fp p (arg 2 a)
+  | 2 => pc_ok_fp p (arg 2 a) && (fp_leg p nr =? -1)
+  | 3 => pc_ok_fp p (arg 2 a) && pc_ok_fp3 p nr (arg 3 a)
+  | _ => false
   end.
 
 Definition run_C11 (op : Z) (a : list (list Z)) : list (list Z) :=
@@ -105,9 +150,10 @@ Definition run_C11 (op : Z) (a : list (list Z)) : list (list Z) :=
   let nr := (argn 1 2 a) mod p in
   let pc := fp_precomp p (arg 2 a) in
   if p <=? 2 then unsupported else
+  if op =? 7 then ok [[Z.b2z (precomp_ok deg p nr a)]] else
   match deg with
-  | 1 => run_ops (SF1 p pc) op a
-  | 2 => run_ops (SF2 p nr pc) op a
-  | 3 => run_ops (SF3 p nr (arg 3 a)) op a
+  | 1 => run_ops (SF1 p pc) p op a
+  | 2 => run_ops (SF2 p nr pc) (p * p) op a
+  | 3 => run_ops (SF3 p nr (arg 3 a)) (p * p * p) op a
   | _ => unsupported
   end.
